@@ -441,3 +441,49 @@ def translation_cases() -> list[tuple[str, dict[str, Any]]]:
             for v in (5, [1], {}, "zz_ZZ", 10 ** 5000):
                 out.append((src, {name: v}))
     return out
+
+
+# ---------------------------------------------------------------- numeric literals whose VALUE is huge but whose text is short
+
+def literal_cases(r: random.Random, tier: str) -> list[str]:
+    mant = ["0", "-0", "000", "-000", "1", "-1", "5", "12", "0.0", "1.5", "-0.0", "00.00", "9" * 30]
+    exps = ["e999999999", "E987654321", "e+99999999", "e-999999999", "e4301", "e4300", "e+4299", "e400", "e5000", "e99999", "E-0", "e00000000000000000001"]
+    ctx = ["{{ L }}", "{% assign x = L %}{{ x }}", "{{ (L..2) }}", "{{ (1..L) }}", "{% for i in (L..L) %}{% endfor %}", "{{ 1 | plus: L }}",
+           "{% if L == 0 %}t{% endif %}", "{% cycle L, 1 %}", "{{ a[L] }}", "{{ L | round }}", "{{ \"${ L }\" }}", "{% liquid assign y = L\n echo y %}",
+           "{% case L %}{% when L %}{% endcase %}", "{{ x | default: L }}", "{% tablerow i in (1..2) cols: L %}{% endtablerow %}"]
+    out = [c.replace("L", m + e) for m in mant for e in exps for c in ctx[:1]]
+    pairs = [(m, e, c) for m in mant for e in exps for c in ctx[1:]]
+    r.shuffle(pairs)
+    out += [c.replace("L", m + e) for m, e, c in pairs[: (len(pairs) if tier == "thorough" else 150)]]
+    out += ["{{ " + "9" * 5000 + " }}", "{{ " + "0" * 100000 + " }}", "{{ 1" + "0" * 10000 + ".5 }}", "{{ -" + "7" * 4301 + " }}", "{{ " + "7" * 4300 + " }}",
+            "{{ 0." + "0" * 50000 + "1 }}", "{{ 1e" + "9" * 400 + " }}", "{{ 0e" + "9" * 400 + " }}", "{{ (0e999999999..0e999999999) }}"]
+    return out
+
+
+# ---------------------------------------------------------------- one cached template through both APIs
+
+MIXED_TEMPLATES = {
+    "main.liquid": "M[{% include 'sub/part.liquid' %}|{% render 'sub/part.liquid' %}]", "sub/part.liquid": "p{{ 1 | plus: 1 }}",
+    "child.liquid": "{% extends 'sub/base.liquid' %}{% block b %}c{{ block.super }}{% include 'sub/part.liquid' %}{% endblock %}",
+    "sub/base.liquid": "B{% block b %}b{% endblock %}", "err.liquid": "{% include 'sub/part.liquid' %}{{ 1 | divided_by: 0 }}",
+    "miss.liquid": "{% include 'sub/nosuch.liquid' %}",
+}
+# operations: (how the template is obtained, how it is rendered, where the call is made)
+MIXED_OPS = [("get_async", "render_async", "coroutine"), ("get", "render", "plain"), ("get", "render", "inside running loop"),
+             ("get_async", "render", "inside running loop"), ("get", "render_async", "coroutine"), ("get_async", "render", "plain")]
+
+
+def mixed_histories(r: random.Random, tier: str) -> list[list[tuple[str, tuple[str, str, str]]]]:
+    names = ["main.liquid", "child.liquid", "err.liquid", "miss.liquid", "sub/part.liquid"]
+    out = []
+    # every ordered pair of operations on the same template, and on a partial then its includer
+    for n in names:
+        for a in MIXED_OPS:
+            for b in MIXED_OPS:
+                out.append([(n, a), (n, b)])
+    for a in MIXED_OPS:
+        for b in MIXED_OPS:
+            out.append([("sub/part.liquid", a), ("main.liquid", b), ("child.liquid", a)])
+    for _ in range(200 if tier == "thorough" else 30):
+        out.append([(r.choice(names), r.choice(MIXED_OPS)) for _ in range(r.randint(3, 6))])
+    return out
